@@ -751,7 +751,8 @@ class IntermediateCodeGen(AbstractCodeGen):
         return data[0]
 
     def genProductRelease(self, data):
-        return data[0]
+        text = data[0]
+        return self.textFilter('product-release', text)
 
     def genEnumSpec(self, data):
         items = data[0]
